@@ -67,6 +67,94 @@ Proof.
   - rewrite !flatten_cons, !sapp_empty. cbn [tok_text]. pose proof (ph_text_nonempty (List.length st)). tauto.
 Qed.
 
+(* ---- modulo the sign-protecting parentheses ---- *)
+(* [simE]: the simulation holds between the two token sequences with the KGuard tokens erased, and the two texts are
+   empty together (the PostgreSQL Array renderer looks at that) *)
+Definition simE (st st' : pstate) (tp ti : list tok) : Prop :=
+  sim st st' (unguard tp) (unguard ti) /\ (flatten tp = "" <-> flatten ti = "").
+
+Inductive simlE : pstate -> pstate -> list (list tok) -> list (list tok) -> Prop :=
+| simlE_nil st : simlE st st [] []
+| simlE_cons st st1 st2 a a' r r' : simE st st1 a a' -> simlE st1 st2 r r' -> simlE st st2 (a :: r) (a' :: r').
+
+Lemma unguard_app a b : unguard (a ++ b) = unguard a ++ unguard b.
+Proof. apply filter_app. Qed.
+Lemma no_auto_unguard l : no_auto l = true -> no_auto (unguard l) = true.
+Proof.
+  induction l as [|t r IH]; [reflexivity|]. rewrite no_auto_cons. intros H. apply andb_prop in H. destruct H as [Ht Hr].
+  cbn [unguard filter]. destruct (negb (is_guard t)); [|apply IH, Hr]. fold (unguard r). rewrite no_auto_cons, Ht, (IH Hr). reflexivity.
+Qed.
+Lemma flatten_app_empty a b : flatten (a ++ b) = "" <-> flatten a = "" /\ flatten b = "".
+Proof. rewrite flatten_app. apply sapp_empty. Qed.
+
+Lemma simE_nil st : simE st st [] [].
+Proof. split; [constructor|tauto]. Qed.
+Lemma simE_app a b c x x' y y' : simE a b x x' -> simE b c y y' -> simE a c (x ++ y) (x' ++ y').
+Proof.
+  intros [S1 E1] [S2 E2]. split; [rewrite !unguard_app; eapply sim_app; eassumption|].
+  rewrite !flatten_app_empty. tauto.
+Qed.
+Lemma simE_ktxt s st st' tp ti : simE st st' tp ti -> simE st st' (KTxt s :: tp) (KTxt s :: ti).
+Proof.
+  intros [S E]. split; [cbn [unguard filter is_guard negb]; apply sim_ktxt, S|].
+  rewrite !flatten_cons, !sapp_empty. tauto.
+Qed.
+Lemma simE_refl st ts : no_auto ts = true -> simE st st ts ts.
+Proof. intros H. split; [apply sim_refl, no_auto_unguard, H|tauto]. Qed.
+Lemma simE_parl b st st' tp ti : simE st st' tp ti -> simE st st' (parl b tp) (parl b ti).
+Proof.
+  intros H. destruct b; cbn [parl]; [|assumption]. apply simE_ktxt. eapply simE_app; [eassumption|]. apply simE_ktxt, simE_nil.
+Qed.
+Lemma simE_opndl sl t st st' tp ti : simE st st' tp ti -> simE st st' (opndl sl t tp) (opndl sl t ti).
+Proof. apply simE_parl. Qed.
+Lemma simE_aliased b c qc alias st st' tp ti : simE st st' tp ti -> simE st st' (aliased b c qc tp alias) (aliased b c qc ti alias).
+Proof.
+  intros H. destruct b; cbn [aliased]; [|assumption]. eapply simE_app; [eassumption|]. apply simE_refl, no_auto_alias_toks.
+Qed.
+Lemma starts_minus_nonempty s : starts_minus s = true -> s <> "".
+Proof. destruct s; [discriminate|]. intros _. discriminate. Qed.
+Lemma unguard_gparl b l : unguard (gparl b l) = unguard l.
+Proof.
+  destruct b; cbn [gparl]; [|reflexivity]. cbn [unguard filter is_guard negb]. fold (unguard (l ++ [KGuard ")"])).
+  rewrite unguard_app. cbn. apply app_nil_r.
+Qed.
+(* the text-dependent parentheses may be present on one side only *)
+Lemma simE_gparl k st st' tp ti : simE st st' tp ti ->
+  simE st st' (gparl (k && starts_minus (flatten tp)) tp) (gparl (k && starts_minus (flatten ti)) ti).
+Proof.
+  intros [S E]. split; [rewrite !unguard_gparl; exact S|].
+  destruct k; cbn [andb]; [|exact E].
+  destruct (starts_minus (flatten tp)) eqn:Mp, (starts_minus (flatten ti)) eqn:Mi; cbn [gparl]; try exact E.
+  - rewrite !flatten_cons. cbn [tok_text]. split; discriminate.
+  - apply starts_minus_nonempty in Mp. rewrite flatten_cons. cbn [tok_text]. split; [discriminate|]. intros H. exfalso. tauto.
+  - apply starts_minus_nonempty in Mi. rewrite flatten_cons. cbn [tok_text]. split; [|discriminate]. intros H. exfalso. tauto.
+Qed.
+Lemma simE_wrap2 a k st st' tp ti : simE st st' tp ti ->
+  simE st st' (wrap2 a (k && starts_minus (flatten tp)) tp) (wrap2 a (k && starts_minus (flatten ti)) ti).
+Proof. intros H. destruct a; cbn [wrap2]; [apply (simE_parl true), H|apply simE_gparl, H]. Qed.
+Lemma simE_jointoks sep st st' tps tis : simlE st st' tps tis -> simE st st' (jointoks sep tps) (jointoks sep tis).
+Proof.
+  induction 1 as [|st st1 st2 a a' r r' Ha Hr IH]; [apply simE_nil|].
+  destruct Hr as [|? ? ? b b' r2 r2' Hb Hr2].
+  - exact Ha.
+  - change (jointoks sep (a :: b :: r2)) with (a ++ KTxt sep :: jointoks sep (b :: r2)).
+    change (jointoks sep (a' :: b' :: r2')) with (a' ++ KTxt sep :: jointoks sep (b' :: r2')).
+    eapply simE_app; [eassumption|]. apply simE_ktxt, IH.
+Qed.
+Lemma flatten_unguard_empty l : flatten l = "" -> flatten (unguard l) = "".
+Proof.
+  induction l as [|t r IH]; [reflexivity|]. rewrite flatten_cons, sapp_empty. intros [Ht Hr].
+  cbn [unguard filter]. destruct (negb (is_guard t)); [|apply IH, Hr]. fold (unguard r). rewrite flatten_cons, Ht, (IH Hr). reflexivity.
+Qed.
+(* a segment with empty text leaves the collector alone *)
+Lemma sim_empty_state st st' tp ti : sim st st' tp ti -> flatten tp = "" -> st' = st.
+Proof.
+  induction 1 as [|x st st' tp ti Hx H IH|l txt st st' tp ti Ht Hc H IH]; intros E; [reflexivity| |].
+  - rewrite flatten_cons in E. apply sapp_empty in E. apply IH. tauto.
+  - rewrite flatten_cons in E. apply sapp_empty in E. cbn [tok_text] in E. destruct E as [E _].
+    exfalso. exact (ph_text_nonempty _ E).
+Qed.
+
 (* ---- relation between the two runs ---- *)
 Definition relS {A} (S : pstate -> pstate -> A -> A -> Prop) (st0 st : pstate) (ri rp : res (A * pstate)) : Prop :=
   match ri, rp with
@@ -90,21 +178,30 @@ Lemma relS_ret {A} (S : pstate -> pstate -> A -> A -> Prop) st0 st st' ai ap :
 Proof. intros. cbn. auto. Qed.
 
 Definition PtB (t : term) := forall c st0 st, vals_ok chk (truthy_ostr (sq c)) t = true ->
-  relS sim st0 st (render_t isf None c t st0) (render_t isf (Some sty) c t st).
+  relS simE st0 st (render_t isf None c t st0) (render_t isf (Some sty) c t st).
 Definition PlB (l : tlist) := forall c st0 st, vals_ok_l chk (truthy_ostr (sq c)) l = true ->
-  relS siml st0 st (render_tl isf None c l st0) (render_tl isf (Some sty) c l st).
+  relS simlE st0 st (render_tl isf None c l st0) (render_tl isf (Some sty) c l st).
 Definition PwB (l : wlist) := forall c st0 st, vals_ok_w chk (truthy_ostr (sq c)) l = true ->
-  relS siml st0 st (render_tw isf None c l st0) (render_tw isf (Some sty) c l st).
+  relS simlE st0 st (render_tw isf None c l st0) (render_tw isf (Some sty) c l st).
 Definition PoB (o : oterm) := match o with ONone => True | OSome t => PtB t end.
 
-Lemma opaque_relS c t st0 st : relS sim st0 st (opaque c t st0) (opaque c t st).
-Proof. unfold opaque. destruct (render c t); cbn; auto. split; [reflexivity|]. apply sim_ktxt, sim_nil. Qed.
+Lemma opaque_relS c t st0 st : relS simE st0 st (opaque c t st0) (opaque c t st).
+Proof. unfold opaque. destruct (render c t); cbn; auto. split; [reflexivity|]. apply simE_ktxt, simE_nil. Qed.
 
 Lemma val_leaf_relS c l txt alias st0 st : txt <> "" -> chk l = true ->
-  relS sim st0 st (val_leaf isf None c l txt alias st0) (val_leaf isf (Some sty) c l txt alias st).
+  relS simE st0 st (val_leaf isf None c l txt alias st0) (val_leaf isf (Some sty) c l txt alias st).
 Proof.
-  intros Ht Hc. cbn [val_leaf]. apply relS_ret. apply sim_auto; [exact Ht|exact Hc|]. apply sim_refl, no_auto_alias_toks.
+  intros Ht Hc. cbn [val_leaf]. apply relS_ret.
+  change (KAuto (List.length st) (ph_text sty (List.length st)) :: alias_toks c (q c) alias)
+    with ([KAuto (List.length st) (ph_text sty (List.length st))] ++ alias_toks c (q c) alias).
+  change (KLit l txt :: alias_toks c (q c) alias) with ([KLit l txt] ++ alias_toks c (q c) alias).
+  eapply simE_app; [|apply simE_refl, no_auto_alias_toks].
+  split; [cbn; apply sim_auto; [exact Ht|exact Hc|constructor]|].
+  rewrite !flatten_cons, !sapp_empty. cbn [tok_text]. pose proof (ph_text_nonempty (List.length st)). tauto.
 Qed.
+
+Lemma sq_opc sl t c : sq (opc sl t c) = sq c.
+Proof. unfold opc. destruct (operand_parens sl (okind_of t) && negb operand_keeps_subc); reflexivity. Qed.
 
 Lemma Z_to_string_nonempty z : Z_to_string z <> "".
 Proof.
@@ -120,15 +217,17 @@ Proof.
 Qed.
 
 Ltac hyps := repeat match goal with H : _ && _ = true |- _ => apply andb_prop in H; destruct H end.
-Ltac stepB IH := eapply relS_bind; [apply IH; assumption | intros ? ? ? ?].
+Ltac stepB IH := eapply relS_bind; [apply IH; rewrite ?sq_opc; assumption | intros ? ? ? ?].
 Ltac simsolve :=
   repeat first [ eassumption
-               | apply sim_nil
-               | apply sim_aliased
-               | apply sim_parl
-               | apply sim_ktxt
-               | apply sim_jointoks
-               | eapply sim_app ].
+               | apply simE_nil
+               | apply simE_aliased
+               | apply simE_opndl
+               | apply simE_wrap2
+               | apply simE_parl
+               | apply simE_ktxt
+               | apply simE_jointoks
+               | eapply simE_app ].
 Ltac finB := apply relS_ret; simsolve.
 
 Lemma sim_all : (forall t, PtB t) /\ (forall l, PlB l) /\ (forall l, PwB l) /\ (forall o, PoB o).
@@ -143,9 +242,13 @@ Proof.
   - (* TValRaw *) intros txt alias c st0 st H. cbn [vals_ok] in H. hyps. apply val_leaf_relS; [|assumption].
     intros ->. discriminate.
   - (* TLit *) intros. apply opaque_relS.
-  - (* TParam *) intros. cbn [render_t]. apply relS_ret. apply sim_same; [reflexivity|apply sim_nil].
+  - (* TParam *) intros. cbn [render_t]. apply relS_ret. apply simE_refl. reflexivity.
   - (* TNeg *) intros t IH c st0 st H. cbn [vals_ok] in H. cbn [render_t]. stepB IH. finB.
-  - (* TArith *) intros op l IHl r IHr alias c st0 st H. cbn [vals_ok] in H. hyps. cbn [render_t]. stepB IHl. stepB IHr. finB.
+  - (* TArith *) intros op l IHl r IHr alias c st0 st H. cbn [vals_ok] in H. hyps. cbn [render_t]. unfold arith_left_first.
+    stepB IHl. stepB IHr. apply relS_ret. apply simE_aliased. eapply simE_app; [apply simE_parl, simE_opndl; eassumption|].
+    apply simE_ktxt. rewrite <- !andb_assoc.
+    apply (simE_wrap2 (right_needs_parens op (top_op r)) (sub_parens_minus && match op with OSub => true | _ => false end)).
+    apply simE_opndl. eassumption.
   - (* TBasic *) intros cm l IHl r IHr alias c st0 st H. cbn [vals_ok] in H. hyps. cbn [render_t]. stepB IHl. stepB IHr. finB.
   - (* TCplx *) intros bo l IHl r IHr alias c st0 st H. cbn [vals_ok] in H. hyps. cbn [render_t]. stepB IHl. stepB IHr. finB.
   - (* TIn *) intros t IHt cont IHc negated alias c st0 st H. cbn [vals_ok] in H. hyps. cbn [render_t]. stepB IHt. stepB IHc. finB.
@@ -160,32 +263,27 @@ Proof.
   - (* TCase *) intros ws IHw els IHe alias c st0 st H. cbn [vals_ok] in H. hyps. cbn [render_t].
     destruct ws as [|cr v r]; [reflexivity|]. stepB IHw. destruct els as [|t'].
     + cbn [tbind ret]. finB.
-    + cbn in IHe. eapply (relS_bind sim sim).
-      * eapply relS_bind; [apply IHe; assumption|intros ? ? ? ?]. apply relS_ret. apply sim_ktxt. eassumption.
+    + cbn in IHe. eapply (relS_bind simE simE).
+      * eapply relS_bind; [apply IHe; assumption|intros ? ? ? ?]. apply relS_ret. apply simE_ktxt. eassumption.
       * intros ei ep stc Hs. finB.
   - (* TFunc *) intros name args _ special alias c st0 st _. cbn [render_t].
     destruct (render_tl isf None (fctx c) args []) as [[tss s']|e] eqn:E; [|reflexivity].
     apply inline_list_ok in E. destruct E as [_ Hn].
-    apply relS_ret. apply sim_aliased. apply sim_refl.
+    apply relS_ret. apply simE_aliased. apply simE_refl.
     rewrite no_auto_cons, no_auto_app, (no_auto_jointoks _ _ Hn). reflexivity.
   - (* TTuple *) intros vs IHv alias c st0 st H. cbn [vals_ok] in H. cbn [render_t]. stepB IHv. finB.
   - (* TArray *) intros vs IHv alias c st0 st H. cbn [vals_ok] in H. cbn [render_t]. stepB IHv.
-    apply relS_ret. apply sim_aliased.
-    assert (Hj : sim st stb (jointoks "," ap) (jointoks "," ai)) by (apply sim_jointoks; assumption).
+    apply relS_ret. apply simE_aliased.
+    assert (Hj : simE st stb (jointoks "," ap) (jointoks "," ai)) by (apply simE_jointoks; assumption).
     destruct (is_pg (dia c)).
-    + pose proof (sim_empty_iff _ _ _ _ Hj) as Hiff.
+    + destruct Hj as [Hs Hiff].
       destruct (flatten (jointoks "," ap)) eqn:Ep, (flatten (jointoks "," ai)) eqn:Ei.
-      * (* both empty: sim of the joined tokens gives the state equation *)
-        assert (Hst : sim st stb [KTxt "'{}'"] [KTxt "'{}'"]).
-        { clear Hiff. revert Ep Ei. generalize (jointoks "," ap) (jointoks "," ai) Hj. clear.
-          induction 1 as [|x st st' tp ti Hx H IH|l txt st st' tp ti Ht Hc H IH]; intros Ep Ei.
-          - apply sim_ktxt, sim_nil.
-          - rewrite flatten_cons in Ep, Ei. apply sapp_empty in Ep. apply sapp_empty in Ei. apply IH; tauto.
-          - rewrite flatten_cons in Ei. apply sapp_empty in Ei. cbn [tok_text] in Ei. tauto. }
-        exact Hst.
+      * (* both empty: nothing was collected *)
+        rewrite (sim_empty_state _ _ _ _ Hs (flatten_unguard_empty _ Ep)). apply simE_refl. reflexivity.
       * exfalso. destruct Hiff as [Hf _]. specialize (Hf eq_refl). discriminate.
       * exfalso. destruct Hiff as [_ Hf]. specialize (Hf eq_refl). discriminate.
-      * simsolve.
+      * assert (Hj : simE st stb (jointoks "," ap) (jointoks "," ai)) by (split; [exact Hs|rewrite Ep, Ei; exact Hiff]).
+        simsolve.
     + simsolve.
   - (* TSub *) intros. apply opaque_relS.
   - (* TNil *) intros. cbn [render_tl]. apply relS_ret. constructor.
@@ -199,7 +297,7 @@ Proof.
 Qed.
 
 Theorem sim_term c t st0 st : vals_ok chk (truthy_ostr (sq c)) t = true ->
-  relS sim st0 st (render_t isf None c t st0) (render_t isf (Some sty) c t st).
+  relS simE st0 st (render_t isf None c t st0) (render_t isf (Some sty) c t st).
 Proof. apply (proj1 sim_all). Qed.
 
 End Sim.
